@@ -20,8 +20,8 @@
     item of [items] for the value [a] with the formatter and runs [unambiguous_ws_b]. *)
 From Coq Require Import ZArith List Bool.
 From V Require Import Base.Int Base.IO Base.Utf8 Model.Scan Model.Items Model.Parse
-  Proofs.Utf8 Proofs.Scan Proofs.C13 Proofs.C13Reads Proofs.C13Fmt Proofs.C13Examples Proofs.C13Names Proofs.C13Digits Proofs.C13Safe Proofs.C13Time Proofs.C13Date Proofs.C13OneWay Proofs.C13View Proofs.C13DateTime Proofs.C13DateForms Proofs.C13TimeForms Proofs.C13Zoned.
-From V Require Model.Parsed Model.Format Model.Strftime Model.Time Model.DateTime Spec.StrftimeDoc.
+  Proofs.Utf8 Proofs.Scan Proofs.C13 Proofs.C13Reads Proofs.C13Fmt Proofs.C13Examples Proofs.C13Names Proofs.C13Digits Proofs.C13Safe Proofs.C13Time Proofs.C13Date Proofs.C13OneWay Proofs.C13View Proofs.C13DateTime Proofs.C13DateForms Proofs.C13TimeForms Proofs.C13Zoned Proofs.C13General.
+From V Require Model.Parsed Model.Format Model.Strftime Model.Time Model.DateTime Spec.StrftimeDoc Spec.Gregorian Proofs.C12 Proofs.C14.
 Import ListNotations.
 Open Scope Z_scope.
 
@@ -428,6 +428,120 @@ Theorem C13_writes_below_view : forall F ws p, Proofs.C14.extends p F -> Forall 
   run_writes ws p = pok (apply_ws ws p) /\ Proofs.C14.extends (apply_ws ws p) F.
 Proof. exact run_view. Qed.
 Print Assumptions C13_writes_below_view.
+
+(** ** The GENERAL composition (formatter -> text -> reader -> Parsed -> resolution) over arbitrary item
+    lists.  Vocabulary: [sv] is the specification-level value of C12 (Spec/StrftimeDoc.v: day number,
+    second of the day, nanoseconds, leap flag); [doc_render sv it] the documented rendering of item
+    [it] for it ([render_num] / [render_fix] of the documentation table; [None] for an unsupported item
+    kind, a field the value lacks, or no documented claim); [gview sv on] the field record holding
+    every date / time field of the value, [on] being the nanosecond field the fraction items print
+    ([doc_item sv on it t]: [t] is the documented rendering and the item's fraction, if any, is [on]).
+    Supported item kinds: literals, white space, every Numeric item except IsoYearDiv100 and Timestamp,
+    month and weekday names, AM/PM, %.f %.3f %.6f %.9f %3f %6f %9f. *)
+(* through C12: the documented rendering is what the formatter prints *)
+Theorem C13_doc_render_is_printed : forall a sv it t, Proofs.C12.args_view a sv ->
+  doc_render sv it = Some t -> Model.Format.format_item a it = Model.Format.fok t.
+Proof. exact doc_render_renders. Qed.
+Print Assumptions C13_doc_render_is_printed.
+
+(* the link that was missing: whatever the reader recognises in the documented rendering of an item
+   is a write of a field OF THE VALUE, within the setter's range (no follow condition needed) *)
+Theorem C13_item_value : forall sv on it t rest w, sv_bounds sv -> doc_item sv on it t ->
+  reads_b it t rest = Some w -> w_ok (gview sv on) w.
+Proof. exact item_value. Qed.
+Print Assumptions C13_item_value.
+
+Theorem C13_numeric_reads_value : forall spec width (signed : bool) code p w force x rest wr,
+  numeric_entry spec = Some (width, signed, code) ->
+  reads_numeric spec (Spec.StrftimeDoc.pad_num p w force x) rest = Some wr ->
+  wr = W_code code x /\ (signed = false -> 0 <= x).
+Proof. exact reads_pad_num_value. Qed.
+Print Assumptions C13_numeric_reads_value.
+
+(* the view is typed and sound for the date it was taken from (C14's vocabulary) *)
+Theorem C13_view_sound : forall sv on d dn, Spec.StrftimeDoc.sv_dn sv = Some dn -> Proofs.C12.date_view d dn ->
+  Proofs.C14.date_sound (gview sv on) d.
+Proof. exact gview_date_sound. Qed.
+Print Assumptions C13_view_sound.
+
+(** format_parse_roundtrip, GENERAL form.  PARTIAL -- side conditions that remain:
+    (1) the items are of the supported kinds and have a documented rendering for the value
+        ([doc_item]; excludes %s, %Z, the offset items, %+, RFC 2822, and %C %y %g on negative years);
+    (2) the text is accepted by [unambiguous_b] (hypothesis, decidable for a given value; the variant
+        [unambiguous_ws_b] for space-padded numbers right after white space is not lifted);
+    (3) the field set the reader builds contains a documented sufficient combination with the year
+        given in full or as century + two-digit year ([date_comb_b] / [time_comb_b], decidable; the
+        two-digit year alone, sufficient only for 1970..=2069, is not included);
+    (4) all fraction items of the list print the same nanosecond value [on];
+    (5) DateTime<FixedOffset> is covered by the family theorem C13_dtz_roundtrip only.
+    Result: parsing the formatted text returns the date itself / the time [time_kept p t] made of the
+    printed fields of [t] (hour and minute; the second with the leap flag if printed, else 0; the
+    printed fraction digits [on] if any) / the date-time of both. *)
+Theorem C13_general_date_roundtrip_partial : forall y o d items texts ws,
+  Proofs.C08Sweeps.repr y o d ->
+  Forall2 (doc_item (sv_of_date (Spec.Gregorian.dn_of_yo y o)) None) items texts ->
+  unambiguous_b (combine items texts) [] = Some ws ->
+  date_comb_b (apply_ws ws Model.Parsed.parsed_new) = true ->
+  Model.Format.write_items (Model.Format.fa_of_date d) items [] = Model.Format.fok (List.concat texts) /\
+  (let+ p := parse Model.Parsed.parsed_new (List.concat texts) items in pr_of (Model.Parsed.to_naive_date p)) = pok d.
+Proof. exact general_date_roundtrip. Qed.
+Print Assumptions C13_general_date_roundtrip_partial.
+
+Theorem C13_general_time_roundtrip_partial : forall t on items texts ws,
+  valid_time t -> (forall n, on = Some n -> 0 <= n <= 999999999) ->
+  Forall2 (doc_item (sv_of_time t) on) items texts ->
+  unambiguous_b (combine items texts) [] = Some ws ->
+  time_comb_b (apply_ws ws Model.Parsed.parsed_new) = true ->
+  Model.Format.write_items (Model.Format.fa_of_time t) items [] = Model.Format.fok (List.concat texts) /\
+  (let+ p := parse Model.Parsed.parsed_new (List.concat texts) items in pr_of (Model.Parsed.to_naive_time p))
+    = pok (time_kept (apply_ws ws Model.Parsed.parsed_new) t) /\
+  (forall v, Model.Parsed.p_second (apply_ws ws Model.Parsed.parsed_new) = Some v -> v = ss t) /\
+  (forall n, Model.Parsed.p_nanosecond (apply_ws ws Model.Parsed.parsed_new) = Some n -> on = Some n).
+Proof. exact general_time_roundtrip. Qed.
+Print Assumptions C13_general_time_roundtrip_partial.
+
+Theorem C13_general_ndt_roundtrip_partial : forall y o d t on items texts ws,
+  Proofs.C08Sweeps.repr y o d -> valid_time t -> (forall n, on = Some n -> 0 <= n <= 999999999) ->
+  Forall2 (doc_item (sv_of_ndt (Spec.Gregorian.dn_of_yo y o) t) on) items texts ->
+  unambiguous_b (combine items texts) [] = Some ws ->
+  date_comb_b (apply_ws ws Model.Parsed.parsed_new) = true -> time_comb_b (apply_ws ws Model.Parsed.parsed_new) = true ->
+  Model.Format.write_items (Model.Format.fa_of_ndt (Model.DateTime.mk_ndt d t)) items [] = Model.Format.fok (List.concat texts) /\
+  (let+ p := parse Model.Parsed.parsed_new (List.concat texts) items in
+   pr_of (Model.Parsed.to_naive_datetime_with_offset p 0)) =
+    pok (Model.DateTime.mk_ndt d (time_kept (apply_ws ws Model.Parsed.parsed_new) t)) /\
+  (forall v, Model.Parsed.p_second (apply_ws ws Model.Parsed.parsed_new) = Some v -> v = ss t) /\
+  (forall n, Model.Parsed.p_nanosecond (apply_ws ws Model.Parsed.parsed_new) = Some n -> on = Some n).
+Proof. exact general_ndt_roundtrip. Qed.
+Print Assumptions C13_general_ndt_roundtrip_partial.
+
+(* with the seconds printed, [time_kept] is the value with its fraction cut to the printed digits *)
+Theorem C13_time_kept_with_seconds : forall p t, valid_time t -> Model.Parsed.p_second p = Some (ss t) ->
+  time_kept p t = Model.Time.mk_time (Model.Time.tsecs t) (leap_part t + Model.Parsed.unwrap_or (Model.Parsed.p_nanosecond p) 0).
+Proof. exact time_kept_seconds. Qed.
+Print Assumptions C13_time_kept_with_seconds.
+
+(* all hypotheses of the general theorem are decided by computation for a given value and item list *)
+Theorem C13_general_ndt_check_sound : forall y o d t on items,
+  Proofs.C08Sweeps.repr y o d -> valid_time t -> general_ndt_check (Spec.Gregorian.dn_of_yo y o) t on items = true ->
+  exists text t',
+    Model.Format.write_items (Model.Format.fa_of_ndt (Model.DateTime.mk_ndt d t)) items [] = Model.Format.fok text /\
+    (let+ p := parse Model.Parsed.parsed_new text items in pr_of (Model.Parsed.to_naive_datetime_with_offset p 0))
+      = pok (Model.DateTime.mk_ndt d t').
+Proof. exact general_ndt_check_sound. Qed.
+Print Assumptions C13_general_ndt_check_sound.
+
+(* inhabited: "%A, %d %B %Y %I:%M:%S%.3f %p", a form without seconds, adjacent full-width fields;
+   an unpadded month in front of the day is rejected *)
+Example C13_general_members :
+  general_ndt_check (Spec.Gregorian.dn_of_yo 2015 365) (Model.Time.mk_time 86399 987654321) (Some 987000000) ex_general_items = true /\
+  general_ndt_check (Spec.Gregorian.dn_of_yo 2015 365) (Model.Time.mk_time 86399 987654321) None
+    [num0 N_Year; Literal [45]; num0 N_Month; Literal [45]; num0 N_Day; Space [32]; num0 N_Hour; Literal [58]; num0 N_Minute] = true /\
+  general_ndt_check (Spec.Gregorian.dn_of_yo 2015 365) (Model.Time.mk_time 0 0) None
+    [num0 N_Year; num0 N_Month; num0 N_Day; num0 N_Hour; num0 N_Minute] = true /\
+  general_ndt_check (Spec.Gregorian.dn_of_yo 2015 36) (Model.Time.mk_time 0 0) None
+    [num0 N_Year; Literal [45]; num N_Month; num0 N_Day; Space [32]; num0 N_Hour; Literal [58]; num0 N_Minute] = false.
+Proof. exact ex_general_member. Qed.
+Print Assumptions C13_general_members.
 
 (* the entry points' lazily driven loops coincide with the loops over the yielded item list *)
 Theorem C13_parse_sf_loop_is_parse_items : forall items fuel p s st, yields st items -> (List.length items < fuel)%nat ->
